@@ -157,7 +157,7 @@ def run_check(pid, tier, seed, keep=False):
     all_h = []
     for p in programs:
         for h in p.harnesses:
-            if h.whitebox and not whitebox:
+            if (h.whitebox and not whitebox) or h.native_only:
                 continue
             all_h.append((p, h))
     failing = []
